@@ -210,3 +210,24 @@ Definition chk_sched_day (cal : list cday) (ranges : list (Z * Z)) (daily : bool
   ords_eq (sc_week s1) week && ords_eq (sc_month s1) month &&
   bools_eq (map (fires ranges daily true s1 today) rules) fired_bt &&
   sched_bars ranges daily s1 today rules bars.
+
+(* ---- lifecycle (C08) ---- *)
+From RQ Require Import Model.EventLoop.
+Definition pev_eqb (a b : pev) : bool :=
+  match a, b with
+  | PSettlement d, PSettlement d' => (d =? d')%Z
+  | PBeforeTrading d t, PBeforeTrading d' t' | POpenAuction d t, POpenAuction d' t' | PBar d t, PBar d' t' | PAfterTrading d t, PAfterTrading d' t' =>
+      ((d =? d') && (t =? t'))%Z
+  | _, _ => false
+  end.
+Fixpoint pevs_eq (a b : list pev) : bool :=
+  match a, b with [], [] => true | x :: s, y :: t => pev_eqb x y && pevs_eq s t | _, _ => false end.
+Definition chk_daily_run (cal : list Z) (start_date end_date : Z) (observed : list pev) : bool :=
+  let days := run_days cal start_date end_date in
+  pevs_eq (exec_run (daily_events days) (lastz days)) observed.
+(* minute frequency: per day the minutes of the session and the minutes at which a universe change was pending *)
+Definition minute_events (days : list (Z * list Z * list Z)) : list sev :=
+  flat_map (fun x => match x with (d, mins, chg) =>
+                       minute_day (S (S (length chg))) d (fun _ => mins) (fun k m => existsb (Z.eqb m) (skipn k chg)) O None true end) days.
+Definition chk_minute_run (days : list (Z * list Z * list Z)) (end_date : Z) (observed : list pev) : bool :=
+  pevs_eq (exec_run (minute_events days) end_date) observed.
